@@ -242,6 +242,8 @@ class ClassTr:
                 return self.expr(n.args[0], env)
             if f.attr == 'power' and len(n.args) == 2 and not kw:
                 return self.power(n.args[0], n.args[1], env)
+            if f.attr == 'square' and len(n.args) == 1 and not kw:
+                return '(%s ^ 2)' % self.expr(n.args[0], env)
             if f.attr in NP1 and len(n.args) == 1 and not kw:
                 return '(%s %s)' % (NP1[f.attr], self.expr(n.args[0], env))
             if f.attr == 'where' and len(n.args) == 3 and not kw:
@@ -346,7 +348,7 @@ class ClassTr:
                     continue
                 raise Unsupported('assert ' + ast.unparse(st.test)[:60])
             if isinstance(st, ast.If) and self.ndim is not None and isinstance(st.test, ast.Compare) \
-                    and ast.unparse(st.test).endswith('.ndim == 0') and isinstance(st.test.left, ast.Attribute) \
+                    and ast.unparse(st.test).endswith(('.ndim == 0', '.size == 1', '.shape == ()')) and isinstance(st.test.left, ast.Attribute) \
                     and isinstance(st.test.left.value, ast.Name) and st.test.left.value.id in env:
                 # 0-d (scalar input) versus array input: the spec item says which side it models
                 branch = st.body if self.ndim == 'scalar' else st.orelse
